@@ -64,9 +64,9 @@ var plans = map[string]Plan{
 	"C08": {Jobs: []Job{{World: "wbuild", Params: "mode=remote,max_targets=5", Share: 0.4}, {World: "wbuild", Params: "mode=remote,max_targets=5,force=nonhermetic+taint+twins", Share: 0.25}, {World: "wbuild", Params: "mode=remote,focus=faults,max_targets=5", Share: 0.35}}, Level: "fault_enumeration",
 		Rule: buildRule + " C08: two machines with the same workspace identity (same absolute workspace path, checkouts swapped in and out, separate local cache roots) sharing an in-memory S3 object store behind grog's S3Client interface; histories interleave builds on A and B, edits, output wipes, and A optionally starting without the remote. After every successful build with the remote configured: every remote target result decodes and every blob it references (through trees) is present remotely; a machine may not execute what the remote certainly holds (shared cache model), restores byte-identical outputs, and its local cache holds the blobs it had to read. Fault runs: remote Get / Put (not applied, applied-but-error) / Head errors, mid-stream read errors, latency on the fake clock: degrade to a miss or a reported failure, never wrong bytes or a hang.",
 		Real: append([]string{"internal/caching/backends/remote_wrapper.go", "internal/caching/backends/s3.go (S3Cache key layout; NewS3CacheWithClient)"}, realBuild...), Stub: append([]string{"AWS SDK client: in-memory object store behind the S3Client interface (NewS3Cache's SDK construction replaced)", "GCS backend not simulated (no seam)"}, stubBuild...), Assume: buildAssume, QuickS: 45, ThoroughS: 900},
-	"C10": {Jobs: []Job{{World: "wlock", Params: "", Share: 0.8}, {World: "wbuild", Params: "mode=faults,focus=crash,max_targets=4", Share: 0.2}}, Level: "exploration",
+	"C10": {Jobs: []Job{{World: "wlock", Params: "", Share: 0.7}, {World: "wbuild", Params: "mode=faults,focus=crash,max_targets=4", Share: 0.1}, {World: "wbuild", Params: "mode=faults,focus=signal,max_targets=4,contend=1", Share: 0.2}}, Level: "exploration",
 		Rule: "W-lock: 2-3 simulated processes (own pids in a simulated process table) run Lock -> critical section (0 / 5 ms / 1.5 s on the fake clock) -> Unlock, or exit without unlocking, or are killed at a drawn file-system step of Lock / section / Unlock; optional pre-existing lock file (dead pid, empty, garbage, a foreign live pid that dies after 2.5 s); every os call of the real WorkspaceLocker and its liveness probe is a sim point, so create->write-pid and read-stale->remove windows are ordinary interleavings. Invariant at every acquisition: at most one live process between Lock()==nil and Unlock(); liveness: every process that is not killed acquires (hang = no runnable task and no timer for 2 h simulated, or step budget). Second job: the real RunBuild call site with crashes (stale lock left by a killed build must not block the next one). non-trivial = >=2 contenders; distinct = distinct (case hash, schedule trace hash).",
-		Real: []string{"internal/locking (WorkspaceLocker)", "internal/config (lock file location)", "W-build job: the full build path (see C07)"}, Stub: []string{"process table, os.Getpid, os.FindProcess + Signal(0) (simos)", "PID reuse is not injected"}, Assume: commonAssume, QuickS: 30, ThoroughS: 900},
+		Real: []string{"internal/locking (WorkspaceLocker)", "internal/config (lock file location)", "W-build jobs: the full build path (see C07); with contend=1 a second `grog build` is started in the same workspace while an invocation runs (also while it is being interrupted)"}, Stub: []string{"process table, os.Getpid, os.FindProcess + Signal(0) (simos)", "PID reuse is not injected"}, Assume: commonAssume, QuickS: 30, ThoroughS: 900},
 	"C07": {Jobs: []Job{{World: "wbuild", Params: "mode=faults,focus=crash,max_targets=5", Share: 0.55}, {World: "wbuild", Params: "max_targets=5", Share: 0.1}, {World: "wkv", Params: "", Share: 0.2}, {World: "wbuild", Params: "mode=remote,focus=faults,max_targets=4", Share: 0.15}, {World: "wbuild", Params: "max_targets=4", Share: 0.4, Kind: "sweep", ThoroughOnly: true}}, Level: "fault_enumeration",
 		Rule: buildRule + faultRule + " W-kv job: the file-system cache backend alone under 2-4 concurrent client processes issuing Set/Get/Exists/Delete on 2-3 keys with unique values, I/O faults and client crashes; the history (invoke/return stamped with scheduler event numbers; failed or cut operations possibly applied) is checked with porcupine against a per-key register, plus 'no value is read that no Set wrote'. Thorough tier only: crash sweep - for successive seeds a fault-free history is probed for the number of file-system operations of each build invocation, then replayed once per operation index (the two longest invocations) with the process killed exactly there (coverage key crash_sweep_points). C07: after EVERY invocation (also killed ones) an offline audit of the cache directory: every cas/<d> (not tmp-*) hashes to d, every target/<k> decodes and every blob it references (through trees) is present; the follow-up builds must satisfy C01.",
 		Real: append([]string{"internal/caching/backends/fs.go under concurrent clients (W-kv)"}, realBuild...), Stub: stubBuild, Assume: append([]string{"porcupine result Unknown (timeout) is inconclusive and never reported", "crash model is process death with the page cache intact (kill -9): every completed file-system operation survives; loss of un-fsynced data on power failure is outside the statement and not injected", "a crash also kills the running target shells"}, buildAssume...), QuickS: 45, ThoroughS: 900},
